@@ -62,7 +62,7 @@ CHECKS = {
  "C08": ("exploration", "ENUM",
    "bounded-exhaustive enumeration of (limit, response shape, payload size) and batch layouts; differential against a server with the limit disabled; every wire frame measured",
    "For every limit 40..260 (thorough ..330) and {1024, 65536} and each of 30 response shapes, every payload size whose unlimited reply length is within limit+-3 is requested over HTTP and WS: a fitting reply must be byte-identical to the unlimited server's, a too-big one must be -32008 with the call's id; batches of 1..4 entries with total array length limit-2..limit+2 and the adjustable entry at every position (array byte-identical or -32011); WS subscribe responses with subscription ids of controlled width; WS unsubscribe replies sized through the request id (both handler exits); methods registered sync, async and blocking; full 1-step sweep of MethodResponse::response / BatchResponseBuilder; handler log identical with and without limit.",
-   "Payload classes are the 5 listed; in-memory transports. Batches are all valid calls or contain one non-request entry (last / middle / first).",
+   "Payload classes are the 5 listed; in-memory transports, plus Server::start over loopback TCP (HTTP/1.1, WebSocket, HTTP/2) for limits on a stride and reply lengths within limit+-1. Batches are all valid calls or contain one non-request entry (last / middle / first).",
    "DESIGN.md §6 C08"),
  "C07": ("exploration", "ENUM+SCHED",
    "bounded-exhaustive enumeration of a (request limit, response limit) x message size x padding x entry point x body framing grid, handler log as oracle; plus exhaustive schedule enumeration (controlled scheduler, stateless DFS) of oversized frames on a backlogged WebSocket connection",
